@@ -22,7 +22,7 @@ MANIFEST = {
     'technique': 'runtime monitoring: single syntax-fault injection at enumerated structural positions with accept/reject oracle and control run',
 }
 LEVEL = 'fault_enumeration'
-BUDGET = {'quick': 45, 'thorough': 400}
+BUDGET = {'quick': 90, 'thorough': 400}
 RULE = ('(host document, slot, fault payload); in quick a seeded sample of slots per host, in thorough every slot of every '
         'host x every applicable payload; distinct by text hash; non-trivial = every case (each carries a fault)')
 ASSUMPTIONS = ['the host without the fault parses (control, per host)', 'hosts contain no */ and no block comments', 'CPython/pyparsing trusted']
